@@ -628,6 +628,7 @@ class TorrentFileHybrid(MetaFile, ProgMixin):
         info["meta version"] = 2
 
         if os.path.isfile(self.path):
+            self.kws["pad"] = False
             info["file tree"] = {self.name: self._traverse(self.path)}
             info["length"] = os.path.getsize(self.path)
 
@@ -735,6 +736,7 @@ class TorrentAssembler(MetaFile, ProgMixin):
         info["meta version"] = 2
 
         if os.path.isfile(self.path):
+            self.kws["pad"] = False
             info["file tree"] = {self.name: self._traverse(self.path)}
             info["length"] = os.path.getsize(self.path)
 
